@@ -3,6 +3,7 @@ package props
 import (
 	"bytes"
 	"crypto/ecdsa"
+	"crypto/elliptic"
 	"fmt"
 	"io"
 	"math/big"
@@ -50,11 +51,11 @@ func init() {
 	})
 }
 
-var c12Ops = []string{"sm2.keygen", "sm2.sign", "sm2.encrypt", "sm2.kxinit", "sm2.kxrespond", "ecdh.keygen", "sm9.skeygen", "sm9.ekeygen", "sm9.sign", "sm9.wrap", "sm9.encrypt", "sm9.kxinit"}
+var c12Ops = []string{"sm2.keygen", "sm2.sign", "sm2.encrypt", "sm2.kxinit", "sm2.kxrespond", "ecdh.keygen", "sm9.skeygen", "sm9.ekeygen", "sm9.sign", "sm9.wrap", "sm9.encrypt", "sm9.kxinit", "legacy.sign", "legacy.encrypt", "sm9.kxrespond"}
 
 func genC12(r *sim.Rand, tier string) *sim.Program {
 	p := &sim.Program{Prop: "C12"}
-	op := r.Weighted(3, 4, 3, 2, 2, 3, 1, 1, 1, 1, 1, 1)
+	op := r.Weighted(6, 8, 6, 4, 4, 6, 2, 2, 2, 2, 2, 2, 2, 2, 1)
 	p.SetC("op", op)
 	p.SetC("pre", r.Intn(2))
 	p.SetC("chunk", r.PickInt(0, 0, 1, 7, 16, 31, 32, 33))
@@ -420,6 +421,54 @@ func c12Build(opn string, seed, msg []byte) (*c12Case, error) {
 					return ""
 				}}, nil
 		}
+	case "legacy.sign", "legacy.encrypt":
+		// the sm2 package also runs its algorithms over other curves (sm2_legacy.go, randFieldElement);
+		// here NIST P-256, with Go's crypto/elliptic as the arithmetic oracle
+		cv := elliptic.P256()
+		ln := cv.Params().N
+		db := scalarFrom(seed, "ld")
+		lp := new(sm2.PrivateKey)
+		lp.Curve = cv
+		lp.D = new(big.Int).SetBytes(db)
+		lp.X, lp.Y = cv.ScalarBaseMult(db)
+		if opn == "legacy.sign" {
+			return &c12Case{name: opn, order: ln, hiOff: 1, usesPre: true,
+				run: func(rd io.Reader) ([][]byte, error) {
+					h := sm3m.Sum(msg)
+					sig, err := sm2.SignASN1(rd, lp, h[:], nil)
+					return [][]byte{sig}, err
+				},
+				check: func(k *big.Int, outs [][]byte) string {
+					r, s2, ok := sm2m.ParseStrictDERSig(outs[0])
+					if !ok {
+						return "signature is not strict DER"
+					}
+					// k = s(1+d) + r d mod n (same equation over this curve's order)
+					got := new(big.Int).Add(big.NewInt(1), lp.D)
+					got.Mul(got, s2)
+					got.Add(got, new(big.Int).Mul(r, lp.D))
+					got.Mod(got, ln)
+					if got.Cmp(k) != 0 {
+						return fmt.Sprintf("nonce recovered from the signature %x, expected block %x", got, k)
+					}
+					return ""
+				}}, nil
+		}
+		return &c12Case{name: opn, order: ln, hiOff: 1,
+			run: func(rd io.Reader) ([][]byte, error) {
+				ct, err := sm2.Encrypt(rd, &lp.PublicKey, msg, nil)
+				return [][]byte{ct}, err
+			},
+			check: func(k *big.Int, outs [][]byte) string {
+				if len(outs[0]) < 65 || outs[0][0] != 4 {
+					return "ciphertext does not start with an uncompressed C1"
+				}
+				x, y := cv.ScalarBaseMult(k.FillBytes(make([]byte, 32)))
+				if x.Cmp(new(big.Int).SetBytes(outs[0][1:33])) != 0 || y.Cmp(new(big.Int).SetBytes(outs[0][33:65])) != 0 {
+					return fmt.Sprintf("C1 is not [k]G for the expected block %x", k)
+				}
+				return ""
+			}}, nil
 	case "ecdh.keygen":
 		return &c12Case{name: opn, order: n, hiOff: 2, xor42: true, usesPre: true,
 			run: func(rd io.Reader) ([][]byte, error) {
@@ -538,7 +587,7 @@ func c12Build(opn string, seed, msg []byte) (*c12Case, error) {
 				}
 				return ""
 			}}, nil
-	case "sm9.wrap", "sm9.encrypt", "sm9.kxinit":
+	case "sm9.wrap", "sm9.encrypt", "sm9.kxinit", "sm9.kxrespond":
 		master, err := sm9.GenerateEncryptMasterKey(&sim.ScriptReader{Data: scalarFrom(seed, "ke")})
 		if err != nil {
 			return nil, err
@@ -604,6 +653,38 @@ func c12Build(opn string, seed, msg []byte) (*c12Case, error) {
 						return "ciphertext too short"
 					}
 					return checkC(k, outs[0][:64])
+				}}, nil
+		case "sm9.kxrespond":
+			// bob responds to alice: R_B = [r_B]Q_A, so e(R_B, de_alice) = e(Ppub, P2)^r_B
+			deA, err := g2FromBytes(alice.Bytes())
+			if err != nil {
+				return nil, fmt.Errorf("user key bytes: %v", err)
+			}
+			return &c12Case{name: opn, order: c12SM9Order, hiOff: 1,
+				run: func(rd io.Reader) ([][]byte, error) {
+					ka := alice.NewKeyExchange([]byte("alice"), uid, 16, true)
+					ra, err := ka.InitKeyExchange(&sim.ScriptReader{Data: scalarFrom(seed, "kra")}, 3)
+					if err != nil {
+						return nil, err
+					}
+					kb := user.NewKeyExchange(uid, []byte("alice"), 16, true)
+					rb, sb, err := kb.RespondKeyExchange(rd, 3, ra)
+					if err != nil {
+						return [][]byte{rb, sb}, err
+					}
+					return [][]byte{rb}, nil
+				},
+				check: func(k *big.Int, outs [][]byte) string {
+					C, err := g1FromBytes(outs[0])
+					if err != nil {
+						return "R_B does not decode: " + err.Error()
+					}
+					w := verifhook.Pair(C, deA)
+					want := new(verifhook.GT).ScalarMult(g, k)
+					if !bytes.Equal(w.Marshal(), want.Marshal()) {
+						return fmt.Sprintf("e(R_B, de_A) is not e(Ppub, P2)^r for the expected block r = %x", k)
+					}
+					return ""
 				}}, nil
 		default:
 			return &c12Case{name: opn, order: c12SM9Order, hiOff: 1,
